@@ -17,7 +17,7 @@ the real device posted.
 import itertools
 import random
 
-from harness.common import leanproc
+from harness.common import leanproc, sm_c18
 from harness.common.shrink import ddmin
 from harness.common.util import InfraError
 
@@ -1459,13 +1459,14 @@ def run(ctx):
                 cfg = gen_cfg(r, None, flavour)
                 ops = gen_ops(r, cfg, r.randint(6, 28))
                 run_case(ctx, model, cfg, ops)
-        for i in range(ctx.n(70, 800)):
+        for i in range(ctx.n(110, 1200)):
             r = ctx.rng("game", i)
             cfg = gen_game_cfg(r)
             ops = gen_ops(r, cfg, r.randint(8, 24))
             run_case(ctx, model, cfg, ops)
         for i in range(ctx.n(40, 400)):
             fine_case(ctx, ctx.rng("fine", i))
+        sm_c18.run(ctx, model, ctx.n(120, 1500))          # state machine devices: comparison + counters only
         for i in range(ctx.n(60, 800)):
             r = ctx.rng("mode", i)
             cfg = gen_cfg(r, "mode")
